@@ -167,6 +167,40 @@ impl<A: Cx> Drv<A> {
         json!({"base": "reg", "r": r, "path": path})
     }
 
+    /// every bit pattern the codec decodes (canonical codes AND documented alternatives)
+    pub fn patterns(&self) -> Vec<u8> {
+        let top: u32 = 1 << A::BITS;
+        (0..top).map(|p| p as u8).filter(|&p| A::try_from_bits(p).is_some()).collect()
+    }
+
+    /// the patterns that are alternatives (decode to a symbol whose own code is different)
+    pub fn alt_patterns(&self) -> Vec<u8> {
+        self.patterns().into_iter().filter(|&p| A::try_from_bits(p).unwrap().to_bits() != p).collect()
+    }
+
+    /// Register `dst` rebuilt from a machine-word image holding the given raw PATTERNS (which may be
+    /// alternatives): the only public way to an owned sequence that stores them.
+    pub fn from_patterns(&mut self, dst: usize, pats: &[u8]) {
+        let w = A::BITS as usize;
+        let nwords = (pats.len() * w + 63) / 64;
+        let mut words = vec![0u64; nwords.max(1)];
+        for (i, &c) in pats.iter().enumerate() {
+            for b in 0..w {
+                if (c >> b) & 1 == 1 {
+                    let pos = i * w + b;
+                    words[pos / 64] |= 1u64 << (pos % 64);
+                }
+            }
+        }
+        let mut l = Vec::new();
+        for x in words {
+            for i in 0..4 {
+                l.push((x >> (16 * i)) & 0xffff);
+            }
+        }
+        self.emit(json!({"op": "fromraw", "dst": dst, "c": A::NAME, "n": pats.len(), "limbs": l}));
+    }
+
     /// A source that is NOT a window of an owned register: a compiled static literal (codecs that have
     /// literal macros) or the slice a machine-word k-mer dereferences to, re-sliced to a random depth.
     /// Registers used: literal slot 23, k-mer register 15.
